@@ -550,6 +550,13 @@ func (g *generator) convertDefinition(
 						"to 'casing' in genqlient.yaml to fix",
 					val.Name, conflict.GraphQLName, goName, def.Name)
 			}
+			if other, ok := g.enumConstants[goName]; ok {
+				return nil, errorf(val.Position,
+					"enum values %s.%s and %s have conflicting Go name %s; "+
+						"add a 'typename' option to one of the enums or change "+
+						"'casing' in genqlient.yaml to fix",
+					def.Name, val.Name, other, goName)
+			}
 
 			goType.Values[i] = goEnumValue{
 				GoName:      goName,
@@ -557,6 +564,9 @@ func (g *generator) convertDefinition(
 				Description: val.Description,
 			}
 			goNames[goName] = &goType.Values[i]
+		}
+		for _, val := range goType.Values {
+			g.enumConstants[val.GoName] = def.Name + "." + val.GraphQLName
 		}
 		return g.addType(goType, goType.GoName, pos)
 
